@@ -59,6 +59,10 @@ fn run_format(cfg: &Cfg, index: u64, stats: &mut Stats) {
             tags: {
                 let mut t = crate::props::c12::tags_for(&input);
                 t.push(format!("layout:{}", ["preserve", "blank_lines", "ignore"][case.options.layout.min(2) as usize]));
+                // a nested directive puts part of the source under the preserve policy
+                if case.options.layout != 0 && input.contains("layout(preserve)") {
+                    t.push("layout:preserve".to_string());
+                }
                 t.push(format!("parentheses:{}", ["minimal", "preserve"][case.options.parens.min(1) as usize]));
                 if case.options.layout == 0 && case.options.width <= 40 {
                     t.push("preserve-at-width<=40".to_string());
@@ -139,6 +143,40 @@ fn run_format(cfg: &Cfg, index: u64, stats: &mut Stats) {
             stats.count("respacing_compared");
             if other != once {
                 fail(stats, "spacing-variant-formats-differently", first_difference(&once, &other), json!({"respaced_input": respaced, "formatted_respaced": other}));
+            }
+        }
+    }
+    // (3b) canonical under redundant single-line parentheses (where the policy is to drop them) and (3c) under pun versus
+    // explicit field spelling; a variant counts only if it parses and desugars to the same term
+    if !has_verbatim {
+        // (a nested `parentheses(preserve)` directive keeps every group by design)
+        if case.options.parens == 0 && !input.contains("parentheses(preserve)") {
+            if let Some(variant) = mutate::add_redundant_parens(&input, &mut rng, true) {
+                if fmtwork::same_desugared(&input, &variant) {
+                    if let Ok(Ok(other)) = case.format(&variant) {
+                        stats.count("redundant_parentheses_compared");
+                        // by design (docs/proposals/formatting.md, "Minimal parenthesis formatting") a singleton group is
+                        // retained when it is printed over several lines, which narrow widths force: only a variant
+                        // whose output has the same lines is judged
+                        let first_differing = other.lines().zip(once.lines()).find(|(a, b)| a != b).map(|(a, _)| a.trim_end().to_string());
+                        let opens_multiline_group = first_differing.as_deref().is_some_and(|l| l.ends_with('('));
+                        if other != once && (other.lines().count() != once.lines().count() || opens_multiline_group) {
+                            stats.count("redundant_parentheses_retained_as_multiline_group");
+                        } else if other != once {
+                            fail(stats, "parenthesis-variant-formats-differently", first_difference(&once, &other), json!({"variant_input": variant, "formatted_variant": other}));
+                        }
+                    }
+                }
+            }
+        }
+        if let Some(variant) = mutate::toggle_pun(&input, &mut rng) {
+            if fmtwork::same_desugared(&input, &variant) {
+                if let Ok(Ok(other)) = case.format(&variant) {
+                    stats.count("pun_spellings_compared");
+                    if other != once {
+                        fail(stats, "pun-variant-formats-differently", first_difference(&once, &other), json!({"variant_input": variant, "formatted_variant": other}));
+                    }
+                }
             }
         }
     }
